@@ -454,9 +454,57 @@ struct Fp {
 
 /// Check one history; returns the implementation fingerprint if everything agreed.
 fn check_varremover(idx: u64, ops: &[Op], acc: &mut Acc, want_fp: bool) -> Option<Fp> {
-    let sel = || json!(ops.iter().map(|o| alphabet().iter().position(|a| a == o).map(|p| p as i64).unwrap_or(-1)).collect::<Vec<i64>>());
+    check_varremover_in(idx, ops, acc, want_fp, "alphabet")
+}
+
+fn pool_by_name(name: &str) -> Vec<Op> {
+    if name == "wide" { wide_alphabet() } else { alphabet() }
+}
+
+/// Values on both sides of every operand-width boundary of Right/Down/w/x/y/z (1, 2, 3, 4 bytes signed).
+fn wide_values() -> Vec<i32> {
+    vec![1, -1, 127, 128, -128, -129, 32767, 32768, -32768, -32769, 8388607, 8388608, -8388608, -8388609, 1 << 29, -(1 << 29)]
+}
+
+/// Second VarRemover alphabet: the variables carry values that need 1, 2, 3 and 4 operand bytes.
+fn wide_alphabet() -> Vec<Op> {
+    let mut a = vec![];
+    for v in wide_values() {
+        a.push(Op::SetVar(Var::W, v));
+        a.push(Op::SetVar(Var::Y, v));
+    }
+    for v in [128, -32769, 8388608] {
+        a.push(Op::SetVar(Var::X, v));
+        a.push(Op::SetVar(Var::Z, v));
+        a.push(Op::Right(v));
+        a.push(Op::Down(-v));
+    }
+    for var in [Var::W, Var::X, Var::Y, Var::Z] {
+        a.push(Op::Move(var));
+    }
+    a.push(Op::Push);
+    a.push(Op::Pop);
+    a.push(Op::TypesetChar { char: 65, move_h: false });
+    a.push(Op::TypesetRule { height: 1, width: 32768, move_h: true });
+    a
+}
+
+fn check_varremover_in(idx: u64, ops: &[Op], acc: &mut Acc, want_fp: bool, pool: &str) -> Option<Fp> {
+    let sel = || json!(ops.iter().map(|o| pool_by_name(pool).iter().position(|a| a == o).map(|p| p as i64).unwrap_or(-1)).collect::<Vec<i64>>());
     acc.eval();
-    let case = || json!({"kind": "varremover", "sel": sel(), "ops": format!("{ops:?}")});
+    let case = || json!({"kind": "varremover", "pool": pool, "sel": sel(), "ops": format!("{ops:?}")});
+    // positions must stay inside i32 (DVI: |h|, |v| < 2^31); a history that leaves it is outside the domain
+    {
+        let big = |r: &dvipos::Regs| r.h.abs() >= (1i64 << 31) - (1 << 16) || r.v.abs() >= (1i64 << 31) - (1 << 16);
+        let mut t = Tracker::default();
+        for op in ops {
+            t.apply(&to_pop(op));
+            if big(&t.top) {
+                acc.count("history_leaves_i32_positions_skipped");
+                return None;
+            }
+        }
+    }
     // The stream that is judged is the history followed by a *drain probe*: a put_rule at the current
     // position, then (Pop, put_rule) once per open stack level plus one. The probe turns "where would the
     // next mark go, at every stack level" into marks, so only what the property states is compared:
@@ -586,7 +634,7 @@ fn main() {
     // F2: sequences
     {
         let k = seqm.len() as u64;
-        let len = ctx.pick(2u32, 3u32);
+        let len = ctx.pick(3u32, 4u32);
         let n = k.pow(len);
         let m = &seqm;
         ctx.family("roundtrip-seq", &format!("all sequences of exactly {len} ops over a {k}-op menu (one op per variant and operand width)"), n, |i, acc| {
@@ -642,6 +690,21 @@ fn main() {
             acc.count("op_encoding_truncated_inside_payload");
         });
     }
+    // F4c: every menu op followed by every single byte (the deserialiser resumes at the right offset)
+    {
+        let m = &menu;
+        let small: Vec<usize> = (0..m.len()).filter(|i| expected_len(&m[*i]).map(|l| l <= 600).unwrap_or(false)).collect();
+        let n = small.len() as u64 * 256;
+        let small = &small;
+        ctx.family("op-then-byte", "the encoding of every menu op (<= 600 bytes) followed by every single byte 00..ff", n, |i, acc| {
+            let op = &m[small[(i / 256) as usize]];
+            let mut b = vec![];
+            op.serialize(&mut b);
+            b.push((i % 256) as u8);
+            check_bytes(i, &b, acc);
+            acc.count("op_followed_by_arbitrary_byte");
+        });
+    }
     // F5: VarRemover, every sequence, no merging
     {
         let k = alpha.len() as u64;
@@ -653,6 +716,27 @@ fn main() {
             check_varremover(i, &ops, acc, false);
             if i % 100003 == 7 {
                 acc.sample(i, || json!({"ops": format!("{ops:?}")}));
+            }
+        });
+    }
+    // F5b: VarRemover with values on both sides of every operand-width boundary
+    {
+        let a = wide_alphabet();
+        let k = a.len() as u64;
+        let len = ctx.pick(4u32, 5u32);
+        let n = vcore::strings_upto(k, len);
+        let a = &a;
+        ctx.family("varremover-wide-values", &format!("every op sequence of length <= {len} over a {k}-op alphabet: w and y set to +-1, 127/128, -128/-129, 32767/32768, -32768/-32769, 2^23-1/2^23, -2^23/-2^23-1, +-2^29; x, z, right, down with 2-, 3-, 4-byte values; moves, push, pop, a char, a rule"), n, |i, acc| {
+            let ops: Vec<Op> = vcore::nth_string(k, i).into_iter().map(|j| a[j as usize].clone()).collect();
+            if check_varremover_in(i, &ops, acc, false, "wide").is_none() {
+                // (None is also the normal result when no fingerprint is wanted)
+            }
+            let moved_wide = ops.iter().enumerate().any(|(p, o)| match o {
+                Op::Move(v) => ops[..p].iter().rev().find_map(|q| match q { Op::SetVar(w, x) if w == v => Some(x.unsigned_abs() >= 32768), _ => None }).unwrap_or(false),
+                _ => false,
+            });
+            if moved_wide {
+                acc.count("move_by_variable_needing_3_or_4_bytes");
             }
         });
     }
@@ -676,6 +760,8 @@ fn main() {
     ctx.require("same_var_set_twice", "the same variable is assigned twice in one history");
     ctx.require("stack_depth_ge_2", "two pushes are open at the end of a history");
     ctx.require("op_encoding_truncated_inside_payload", "an op encoding is cut inside its payload");
+    ctx.require("move_by_variable_needing_3_or_4_bytes", "a w/x/y/z move whose amount needs a 3- or 4-byte operand");
+    ctx.require("op_followed_by_arbitrary_byte", "a complete op encoding followed by one arbitrary byte");
     ctx.finish("round trip: op sequences enumerated from boundary menus (non-trivial = some op needs a multi-byte operand); bytes: every short byte string (non-trivial = parses to >= 1 op, then checked for parse/serialize/parse stability); VarRemover: every history over the alphabet (non-trivial = contains a variable op and a typeset op), compared with an independent position tracker, plus BFS with state merging");
 }
 
@@ -694,8 +780,10 @@ fn replay(case: &Value, _menu: &[Op], _seqm: &[Op], _alpha: &[Op], acc: &mut Acc
             check_roundtrip(0, &ops, acc, &|| case["sel"].clone());
         }
         Some("varremover") => {
-            let ops: Vec<Op> = case["sel"].as_array().unwrap().iter().map(|d| _alpha[d.as_u64().unwrap() as usize].clone()).collect();
-            check_varremover(0, &ops, acc, false);
+            let pool = case["pool"].as_str().unwrap_or("alphabet").to_string();
+            let a = pool_by_name(&pool);
+            let ops: Vec<Op> = case["sel"].as_array().unwrap().iter().map(|d| a[d.as_u64().unwrap() as usize].clone()).collect();
+            check_varremover_in(0, &ops, acc, false, &pool);
         }
         _ => {
             eprintln!("replay: unknown case kind");
